@@ -221,8 +221,14 @@ def c05(seed, tier):
     values["R"] = [set_str("R", c) for c in ("admin", "user", "Admin", "", "users")]
     int_lists = {"int": "1,2,3", "int8": "-128,0,127", "uint8": "0,255", "int64": "-9223372036854775808, 9223372036854775807",
                  "uint64": "18446744073709551615,0", "uint16": " 7 ,7,65535", "int32": "0x10,1_0,0o17"}
-    for tn, lst in int_lists.items():
-        nm = "I_" + tn
+    more_int_lists = [
+        # distinct items that round to the same float64 (above 2^53) or sit at the edge of the type: each must stay listed
+        ("I_big1", "int64", "9007199254740992,9007199254740993"), ("I_big2", "uint64", "18446744073709551615, 18446744073709551614,7"),
+        ("I_big3", "int", "9223372036854775806,9223372036854775807"), ("I_big4", "int64", "-9007199254740993,-9007199254740992, 5"),
+        ("I_big5", "uint", "4611686018427387904,4611686018427387905"), ("I_big6", "uint64", "9007199254740993,9007199254740992"),
+        ("I_many", "int16", ",".join(str(k * 37 - 500) for k in range(30))), ("I_dup", "int", "5,5,6,5"), ("I_neg", "int32", "-1,-2, -3,+4"),
+    ]
+    for nm, tn, lst in [("I_" + tn, tn, lst) for tn, lst in int_lists.items()] + more_int_lists:
         t = basic(tn)
         fields.append(fld(nm, ["//govalid:enum=" + lst], t))
         lo, hi = int_range(t)
@@ -589,6 +595,18 @@ def c09(seed, tier):
                 specdoc=["//govalid:required"])
     g4 = struct("G4", [fld("K", ["//govalid:gt=0"], i64)], [case([]), case([set_int("K", 1)])])
     scen.append(scenario("c09grp", [g1, g2, g3, g4], grouped=True, groupaux=["Mid int", "Fn func()", "Last []string"]))
+    # a marker on the group itself governs every struct of the group, whether or not a spec has its own doc comment
+    # (plain prose, its own marker, the same marker again with another parameter)
+    h1 = struct("H1", [fld("A", [], s), fld("B", ["//govalid:email"], s)], [case([]), case([set_str("A", b"x"), set_str("B", b"a@b.cd")]), case([set_str("B", b"a@b.cd")])],
+                specdoc=["// H1 is a registered user."])
+    h2 = struct("H2", [fld("A", [], s)], [case([]), case([set_str("A", b"x")])])
+    h3 = struct("H3", [fld("A", [], s)], [case([]), case([set_str("A", b"x")]), case([set_str("A", b"toolong")])],
+                specdoc=["// H3 has its own marker.", "//govalid:maxlength=3"])
+    h4 = struct("H4", [fld("A", [], s), fld("N", [], i64)], [case([]), case([set_str("A", b"x"), set_int("N", 1)])], specdoc=["//govalid:required"])
+    scen.append(scenario("c09grpdoc", [h1, h2, h3, h4], grouped=True, groupaux=["Mid2 int"], groupdoc=["// group comment", "//govalid:required"]))
+    k1 = struct("K1", [fld("A", [], s)], [case([]), case([set_str("A", b"abcd")]), case([set_str("A", b"ab")])], specdoc=["//govalid:minlength=3"])
+    k2 = struct("K2", [fld("A", [], s)], [case([]), case([set_str("A", b"abcd")]), case([set_str("A", b"ab")])], specdoc=["// prose only"])
+    scen.append(scenario("c09grpdoc2", [k1, k2], grouped=True, groupdoc=["//govalid:minlength=1", "//govalid:maxlength=3"]))
     # embedded fields
     scen.append(scenario("c09emb", [
         struct("T", [fld([], [], T("Base", "TNamed TStructT", "opaque")), fld("A", [], s), fld([], ["//govalid:required"], T("*Base2", "TPointer", "nilable"))],
